@@ -188,7 +188,7 @@ class CallMixin:
                     one(f"{name}[*]", o.rest)
                 return
             p = prov_of(st, v)
-            if p - {IMM, CLS}:
+            if (p - {IMM, CLS}) or getattr(self.cfg, "arg_summary_all", False):
                 out.append((str(name), vrepr(v)) + tuple(sorted(p)))
         for i, v in enumerate(args):
             one(i, v)
